@@ -148,6 +148,10 @@ func c05scenario(k0, k1, reads int) {
 // HarnessC05Quick: two watching sources, 1+1 reports, a reader doing 2 reads.
 func HarnessC05Quick() { c05scenario(1, 1, 2) }
 
+// HarnessC05RejectAccept: one source reports twice with arbitrary validity (so a rejected report
+// can be followed by an accepted one), one concurrent read.
+func HarnessC05RejectAccept() { c05scenario(0, 2, 1) }
+
 // HarnessC05Seq: 2+1 reports, no concurrent reader.
 func HarnessC05Seq() { c05scenario(2, 1, 0) }
 
